@@ -31,7 +31,7 @@ ASSUMPTIONS = [
 FLOORS = {"cases:removal": 0.08, "cases:base-class-only": 0.05, "cases:strict": 0.3, "cases:raise": 0.03}
 
 RULE_CLASSES = ["ASTNode", *M.CLASS_NAMES]
-ACTIONS = ["keep", "clone", "rewrite", "replace", "remove", "raise", "raise_nth"]
+ACTIONS = ["keep", "clone", "rewrite", "replace", "remove", "raise", "raise_nth", "rewrite_inplace", "rewrite_inplace"]
 
 
 class RuleError(Exception):
@@ -105,6 +105,8 @@ def ref_transform(e: T.ENode, rules: dict, strict: bool, removable: dict, log: l
         return g
     action = rules[method[6:]]
     a = action[0]
+    if a == "rewrite_inplace":
+        a = "rewrite"  # same result as the rule written with generic_visit + replace
     if a == "raise_nth":
         # the rule keeps its first firings and fails at a later one (after earlier siblings were rebuilt)
         counters[method] = counters.get(method, 0) + 1
@@ -154,6 +156,15 @@ def make_transformer(rules: dict, strict: bool, removable_live: dict, log: list,
 
         def visit(self, node):
             log.append((f"visit_{cls_name}", id(node)))
+            if action[0] == "rewrite_inplace":
+                # the documented way to write a rule: take the mapping of changed children (made for
+                # dataclasses.replace), add the rule's own change to it, rebuild
+                changes = self._transform_children(node)
+                if any(f.name == "v" for f in dataclasses.fields(node)):
+                    changes["v"] = 40 + action[1] % 5
+                else:
+                    changes["origin"] = og.build_origin(["gen", action[1] % 3], sources)
+                return dataclasses.replace(node, **changes)
             new = ASTTransformVisitor.generic_visit(self, node)
             a = action[0]
             if a == "raise_nth":
@@ -271,6 +282,17 @@ def check_case(data: dict, lab: Labels) -> None:
         got = disp.visit(b.of(e))
         exp = dispatch_ref(e.cls, set(rules1), strict)
         require(got == exp, "dispatch", f"{e.cls} with methods {sorted(rules1)} strict={strict}: {got}, expected {exp}")
+    # strictness is a property of the visitor *object*: two objects of one class that set it in
+    # __init__, used alternately (and through node.accept as well)
+    two = [type(disp)(), type(disp)()]
+    two[0].strict, two[1].strict = strict, not strict
+    for k, e in enumerate(nodes):
+        for j in ((0, 1) if k % 2 else (1, 0)):
+            v = two[j]
+            got = v.visit(b.of(e)) if (k + j) % 3 else b.of(e).accept(v)
+            exp = dispatch_ref(e.cls, set(rules1), v.strict)
+            require(got == exp, "dispatch", f"{e.cls} with methods {sorted(rules1)} strict={v.strict} set on the visitor object: "
+                    f"{got}, expected {exp}")
     if data["validate"] and rules1:
         # a mismatching annotation must be refused
         from pyoak.visitor import ASTVisitor
@@ -363,4 +385,4 @@ def st_case(ctx: Ctx):
     )
 
 
-PARTS = [Part("cases", check_case, strategy=st_case, quick=4000, thorough=120000)]
+PARTS = [Part("cases", check_case, strategy=st_case, quick=12000, thorough=320000)]
